@@ -97,6 +97,7 @@ def _for_value(E, s, it, st, fx):
     _check_shape(E, spec, s, fx, k)
     lid = _loop_id(E, fx, k)
     # inv-init
+    E.inv_mode = "prove"
     for label, g in spec.inv(E, st, z3.IntVal(0)):
         E.oblige("%s/inv-init/%s%s" % (lid, label, E.case_suffix), st, g, kind="inv-init", func=fx.qualname, line=s.lineno)
     outs = []
@@ -104,8 +105,10 @@ def _for_value(E, s, it, st, fx):
         i = z3.Int(fresh_name("i"))
         h.assume(i >= 0, i <= n)
         h.ghost["loop_index"] = i
+        E.inv_mode = "assume"
         for _label, g in spec.inv(E, h, i):
             h.assume(g)
+        E.inv_mode = "prove"
         if not E.feasible(h):
             continue
         # exit
@@ -222,12 +225,15 @@ def exec_while(E, s, st, fx):
         raise OutOfReach("while loop %d of %s needs an invariant" % (k, fx.qualname))
     _check_shape(E, spec, s, fx, k)
     lid = _loop_id(E, fx, k)
+    E.inv_mode = "prove"
     for label, g in spec.inv(E, st, None):
         E.oblige("%s/inv-init/%s%s" % (lid, label, E.case_suffix), st, g, kind="inv-init", func=fx.qualname, line=s.lineno)
     outs = []
     for h in _havoc(E, spec, s, st, fx, with_target=False):
+        E.inv_mode = "assume"
         for _label, g in spec.inv(E, h, None):
             h.assume(g)
+        E.inv_mode = "prove"
         if not E.feasible(h):
             continue
         for r in E.ev(s.test, h, fx):
